@@ -27,7 +27,8 @@ STATE_MEASURE = 'distinct (operation, access mode, notification mode, outcome) t
 PROBES = ['get-readable', 'get-write-only-refused', 'set-writable', 'set-read-only-refused',
           'unknown-property', 'unknown-interface', 'getall', 'local-assign-emits',
           'local-assign-silent', 'remote-set-emits', 'same-name-two-interfaces',
-          'inherited-property', 'empty-interface-name', 'get-after-remote-set']
+          'inherited-property', 'empty-interface-name', 'get-after-remote-set',
+          'two-instances-of-one-class']
 COMPONENTS = {
     'real': ['txdbus.objects.DBusProperty / DBusObject (_dbus_PropertyGet/Set/GetAll, '
              'getAllProperties, emitSignal)', 'DBusObjectHandler dispatch',
@@ -67,8 +68,15 @@ def scenario(ctx):
                                             ds.pick(['true', 'false'])))
             if not any(d.props for d in allifs):
                 allifs[0].props.append(('Level', 'i', 'readwrite', 'true'))
-            txi = objgen.build_tx_ifaces(cs)
-            klass = objgen.build_class(cs, hook, txi)
+            if i == 1 and ds.flag(0.5):
+                # the second object is another instance of the first object's class
+                cs = objs[paths[0]]['cs']
+                klass = type(objs[paths[0]]['obj'])
+                allifs = cs.all_ifaces()
+                sim.probe('two-instances-of-one-class')
+            else:
+                txi = objgen.build_tx_ifaces(cs)
+                klass = objgen.build_class(cs, hook, txi)
             o = klass(p)
             reg = {}
             for d in allifs:
